@@ -542,6 +542,14 @@ func C10(c *core.Ctx) {
 				switch x := in.(type) {
 				case *ssa.Send:
 					writes = append(writes, in)
+				case *ssa.Select:
+					// a send that gives up when the face is closing is a write all the same
+					for _, st := range x.States {
+						if st.Dir == types.SendOnly {
+							writes = append(writes, in)
+							break
+						}
+					}
 				case ssa.CallInstruction:
 					for _, a := range x.Common().Args {
 						if core.Strip(a) == frame {
